@@ -5,21 +5,66 @@ import json, os, subprocess
 HOOK_COMMITS = ["332b7ea"]
 CHECKS = {
  # id: (category, technique, level text, level note, design ref)
+ "C01": ("exploration", "reference-model monitor: Evaluate vs an independent set-valued interpreter over a typed data universe (5 Go representations of each logical document)",
+         "Every observed (expression, datum, options) -> outcome is compared with the set of outcomes an independent interpreter of the documented semantics allows; workloads are seeded, datum-directed and cover every operator x kind cell (reach conditions make an under-exercised run inconclusive).",
+         "Reference semantics in internal/refsem (explicit unspecified list, counted); data shapes outside the universe are not explored.", "DESIGN.md §4 C01"),
+ "C02": ("exploration", "constructive oracle: literal rendered from a chosen value y, expected result is Go's own x == y; exact big.Rat midpoints for float32",
+         "No parsing in the oracle: the literal is rendered from a value of the field's own kind in every admissible spelling; wrap-around, >2^53 and double-rounding witnesses are generated on purpose; invalid literals and non-scalars must error.",
+         "Value space sampled around boundary sets; NaN excluded.", "DESIGN.md §4 C02"),
+ "C03": ("exploration", "relational monitor: composite outcome vs the statement's 3x3 table applied to the observed outcomes of the parts",
+         "A, B, and 10 composites are evaluated by separate evaluators; the oracle is the table of the statement over observed outcomes, so no model of A or B is needed; all 9+9+3 cells must be observed.",
+         "Operands the reference marks order-dependent are skipped.", "DESIGN.md §4 C03"),
+ "C04": ("exploration", "relational monitor over the ten operator spellings and not(...) wrappers",
+         "Positive/negative/contains spellings and not() wrappers of the same (selector, literal, datum) are evaluated and compared pairwise (complement, same-error, flip).",
+         "Outcomes compared as classes true/false/error.", "DESIGN.md §4 C04"),
+ "C05": ("exploration", "table monitor + constructive relational check (insert v at the missing key and compare) + reference model",
+         "Places where a path can fail are derived from each datum; the statement's table is asserted literally; WithUnknownValue(v) is compared with evaluating on a clone that has v inserted.",
+         "Which failures count as absent follows the statement.", "DESIGN.md §4 C05"),
+ "C06": ("exploration", "reference-model monitor + relational unrolling (quantifier vs its separately evaluated or/and chain) + fixed scoping cases",
+         "Quantifiers over every collection shape / binding mode are compared with the reference and, for lists, with the unrolled chain built by capture-avoiding substitution.",
+         "Map visiting order is not specified by this property (set-valued reference).", "DESIGN.md §4 C06"),
+ "C07": ("exploration", "relational monitor over 5 re-spellings of every selector (paths in the parsed trees and outcomes must coincide) + exactness cases",
+         "Each expression is re-spelled (dotted, both bracket forms, JSON Pointer with escapes, mixed); parsed Path slices and Evaluate outcomes must be identical.",
+         "Parts are only re-spelled in forms that can express them.", "DESIGN.md §4 C07"),
+ "C08": ("exploration", "two-run non-interference monitor (data equal on visible fields, different in every hidden/unexported field) for Evaluate and Filter selections",
+         "Pairs of data that differ only in hidden content must give identical outcomes and identical kept positions/keys under both tag names; expressions are aimed at the hidden fields.",
+         "Filters only under the default tag (CreateFilter takes no options).", "DESIGN.md §4 C08"),
+ "C09": ("exploration", "totality monitor: recover + journaled child processes over an exhaustive operator x reflect.Kind x holder matrix, plus the random workload",
+         "A zoo with every reflect.Kind and the odd shapes x 8 holders x ~270 expressions is enumerated completely on every run; err != nil => false is asserted on every call.",
+         "Recursive pointer types excluded (pointerstructure never terminates on them).", "DESIGN.md §4 C09"),
  "C10": ("exploration", "totality monitor (recover + journaled child processes) over hostile byte strings",
-         "Every input is pushed through grammar.Parse, CreateEvaluator, CreateFilter, Evaluate, Execute and ExpressionDump under a panic monitor; result shapes are asserted; unrecoverable deaths are attributed to the exact case through a per-case journal. Exploration is the right level: the domain is all byte strings, reached by bounded-exhaustive edits of a corpus plus seeded mutation.",
-         "Held on the byte strings generated; parse steps capped by a budget for exponential inputs; one known finding (stack overflow on multi-megabyte flat chains) is listed in known_findings.json.", "DESIGN.md §4 C10"),
- "C11": ("exploration", "relational monitor over the parser step counter (verif hook), every budget 1..N+2",
+         "Every input is pushed through grammar.Parse, CreateEvaluator, CreateFilter, Evaluate, Execute and ExpressionDump under a panic monitor; result shapes are asserted; unrecoverable deaths are attributed to the exact case through a per-case journal.",
+         "Parse steps capped by a budget for exponential inputs; one known finding (stack overflow on multi-megabyte flat chains) is listed in known_findings.json.", "DESIGN.md §4 C10"),
+ "C11": ("exploration", "relational monitor over the parser step counter (verif hook), every budget 1..N+2 and length-related budgets",
          "For each input the unlimited step count N is observed through the VerifParse hook and every budget around / below it is executed; the oracle is relational (threshold, monotonicity, steps <= n+1).",
          "Steps counted by the parser's own counter; wall-clock is not asserted.", "DESIGN.md §4 C11"),
+ "C12": ("exploration", "Go race detector (-race, halt_on_error=0, log parsed per round) + per-call equality with sequential fresh evaluators + syntax-tree invariant (VerifAST hook)",
+         "Shared evaluators/filters are hammered by barrier-released goroutines under GOMAXPROCS 16/4/2; happens-before race detection makes the verdict independent of the interleaving actually observed; overlap is measured and reported.",
+         "Only code the pool reaches is judged.", "DESIGN.md §4 C12"),
+ "C13": ("exploration", "history monitor: one evaluator over 2..12 mixed calls vs fresh evaluators, deep datum snapshots before/after, syntax-tree invariant",
+         "Histories mix data whose selected values change kind, errors included; each call is compared with a fresh evaluator; canonical deep snapshots detect any write to the datum; the AST (incl. spare slice capacity) must be unchanged.",
+         "Fresh-evaluator results are the specification of history independence.", "DESIGN.md §4 C13"),
+ "C14": ("exploration", "repetition monitor: 120-200 repetitions x 3 insertion orders of maps whose element outcomes mix true/false/error",
+         "Order-sensitive cases (by the reference) are generated on purpose in every binding mode; all repetitions must agree; filters over maps likewise.",
+         "Relies on Go's per-iteration randomisation (observed and reported).", "DESIGN.md §4 C14"),
  "C15": ("exploration", "differential monitor against an independent hand-written PEG recogniser; exhaustive token sequences + mutated derivations",
          "Accept/reject and the built tree are compared with an independent reference recogniser on every token sequence up to k tokens (exhaustive) and on mutated random derivations.",
          "The reference recogniser is a hand-written reading of grammar.peg; strings longer than the bounds are only sampled.", "DESIGN.md §4 C15"),
  "C16": ("exploration", "round-trip monitor: random tree -> random admissible rendering -> real parser -> tree equality; literal fidelity by evaluation",
          "Seeded trees are rendered with per-node random layout and parsed back; literal strings are rendered in each admissible style and both parsed and evaluated.",
          "Renderer emits only layouts the grammar admits; parenthesis nesting bounded.", "DESIGN.md §4 C16"),
+ "C17": ("exploration", "model-based monitor: Execute vs per-element Evaluate, result type, deep input snapshot, storage independence, idempotence, partition",
+         "A zoo of containers (named slices, arrays, maps with colliding printed keys, nil/empty) and collections from seeded documents; the model is per-element Evaluate.",
+         "Evaluate on an element is taken as the specification of the filter.", "DESIGN.md §4 C17"),
+ "C18": ("exploration", "relational monitor over permutations / repetitions / neutral extensions of option lists + reference model with the same pure hooks",
+         "Equivalent option lists must give equal outcomes (each evaluator is called twice); the effective configuration is checked against the reference, which applies the same hook after every step.",
+         "Hooks from a small pure family implemented twice.", "DESIGN.md §4 C18"),
  "C19": ("exploration", "differential monitor against an independent reference renderer of the documented dump format",
-         "ExpressionDump output of parser-produced trees is compared byte for byte with a reference renderer over indent strings x levels.",
+         "ExpressionDump output of parser-produced trees is compared byte for byte with a reference renderer over 18 indent strings x 4 levels, in random order within one process (history dependence shows).",
          "Documented format = the one pinned by ast_test.go.", "DESIGN.md §4 C19"),
+ "C20": ("translation_validation", "invariant on the live rule table (VerifTable hook) vs grammar.peg read at check time + differential execution of every shipped action against the grammar's code block compiled in through go build -overlay",
+         "Complete node-for-node comparison of all rules; every action bound to the pre-order name the generator prescribes; every action executed side by side with the compiled code block over a product universe.",
+         "Actions are compared up to observable behaviour on the argument universe; the .peg reader follows pigeon's syntax.", "DESIGN.md §4 C20"),
 }
 NOT_YET = {}
 
